@@ -49,6 +49,18 @@ func storeChild(dir, reqFile string, limit int64, mode string) int {
 		return 3
 	}
 	tm := sidecar.NewTargetsManager(dir, prometheus.NewRegistry(), quietLog())
+	if strings.HasSuffix(mode, "-load") {
+		// the interruption hits the save that Load itself performs (first start on a store directory)
+		if mode == "efbig-load" {
+			signal.Ignore(syscall.SIGXFSZ)
+		}
+		lim := syscall.Rlimit{Cur: uint64(limit), Max: uint64(limit)}
+		if err := syscall.Setrlimit(syscall.RLIMIT_FSIZE, &lim); err != nil {
+			return 5
+		}
+		_ = tm.Load()
+		return 0
+	}
 	if err := tm.Load(); err != nil {
 		return 4
 	}
@@ -147,6 +159,61 @@ func copyDir(src, dst string) error {
 	return nil
 }
 
+// storeOldFormat: the store directory holds only the old-format file (targets.json, written by an
+// earlier version); the first start of this version is interrupted while it saves what it loaded
+// (killed / write failing at byte N); the next start has to resume the stored assignment.
+func storeOldFormat(self, work string, rng *Rng, res *Result) {
+	oldT := mkTargets(rng.Fork(), 5, 0)
+	base := filepath.Join(work, fmt.Sprintf("store-%d-oldfmt", os.Getpid()))
+	_ = os.RemoveAll(base)
+	_ = os.MkdirAll(base, 0755)
+	defer os.RemoveAll(base)
+	data, _ := json.Marshal(oldT)
+	if err := os.WriteFile(filepath.Join(base, "targets.json"), data, 0644); err != nil {
+		return
+	}
+	reqFile := base + "-req.json"
+	_ = os.WriteFile(reqFile, []byte("{}"), 0644)
+	defer os.Remove(reqFile)
+	// uninterrupted first start: the assignment is resumed (and re-saved in the new format)
+	full := base + "-full"
+	_ = copyDir(base, full)
+	li := storeLoad(full)
+	newBytes, _ := os.ReadFile(filepath.Join(full, "kvass-shard.json"))
+	_ = os.RemoveAll(full)
+	res.Evaluations++
+	if li.Err != "" || !sameTargets(li.Targets, oldT) {
+		// this version does not read the old format (any more): nothing to check
+		res.count("oldformat_not_supported")
+		return
+	}
+	L := int64(len(newBytes))
+	for _, mode := range []string{"kill-load", "efbig-load"} {
+		for _, n := range []int64{0, 1, L / 2, L - 1} {
+			if n < 0 {
+				continue
+			}
+			cut := base + "-cut"
+			_ = os.RemoveAll(cut)
+			_ = copyDir(base, cut)
+			_ = exec.Command(self, "store-child", cut, reqFile, fmt.Sprint(n), mode).Run()
+			li := storeLoad(cut)
+			_ = os.RemoveAll(cut)
+			res.Evaluations++
+			res.count("oldformat_first_start_cut")
+			if li.Err != "" || !sameTargets(li.Targets, oldT) {
+				nt := 0
+				for _, ts := range li.Targets {
+					nt += len(ts)
+				}
+				res.ImplViol = capViol(res.ImplViol, Violation{Property: "C09", Clause: "oldFormat", Signature: "C09/oldFormat/" + mode,
+					What: fmt.Sprintf("store directory with only the old-format file (5 targets); the first start was interrupted (%s at byte %d of %d) while saving what it had loaded; the next start resumes %d targets, error %q", mode, n, L, nt, li.Err),
+					Case: map[string]interface{}{"case": StoreCase{Old: oldT, HadOld: true, Mode: mode}}}, 2)
+			}
+		}
+	}
+}
+
 func runStore(a Args) *Result {
 	res := newResult("store", a.seed, a.tier)
 	res.Rule = "pairs of consecutive assignments (escaping-heavy label values, empty and large sets, both states, first start without a store); for each a child process runs the real UpdateTargets under RLIMIT_FSIZE=N for a sweep of byte offsets N, once killed by SIGXFSZ and once with the write failing (EFBIG); then a fresh TargetsManager.Load(); non-trivial = the cut falls strictly inside the written bytes; distinct by (pair, offset, mode)"
@@ -171,6 +238,9 @@ func runStore(a Args) *Result {
 	var lines []string
 	var all []obsT
 	distinct := 0
+	if a.replay == "" && a.wants("C09") {
+		storeOldFormat(self, work, rng.Fork(), res)
+	}
 	for pi := 0; pi < nPairs; pi++ {
 		sizes := []int{0, 1, 3, 12, 60, 400, 2000}
 		na := sizes[rng.Intn(len(sizes))]
